@@ -23,7 +23,8 @@ fn name_chars() -> &'static [char] {
                 v.push(c as char);
             }
         }
-        v.extend(['é', '中', '😀', '\u{7f}']);
+        // 'à' 'Å': the last UTF-8 byte (A0, 85) read as Latin-1 is white space
+        v.extend(['é', '中', '😀', '\u{7f}', 'à', 'Å']);
         v
     })
 }
@@ -173,13 +174,26 @@ fn gen_file(w: &World, scale: Scale, max_recs: u64, max_len: u64) -> FileModel {
         } else {
             p.width
         };
+        // the single line of the file's last record, left without its terminator: samtools faidx
+        // measures that line as it is and writes the same number for both widths
+        let bare_last_line = len > 0 && len <= p.width && i + 1 == n && !last_line_terminated && w.chance(1, 2);
+        if bare_last_line {
+            w.probe("fai_equal_widths_for_unterminated_last_line");
+        }
+        let lb = if bare_last_line { len } else { lb };
         recs.push(RecModel {
             name: p.name,
             seq: p.seq,
             width: lb,
             offset,
             line_bases: lb as u64,
-            line_bytes: if lb == 0 { 0 } else { (lb + term.len()) as u64 },
+            line_bytes: if lb == 0 {
+                0
+            } else if bare_last_line {
+                lb as u64
+            } else {
+                (lb + term.len()) as u64
+            },
         });
     }
     // The rows of a .fai need not be in file order (a sorted or subsetted index still matches the
@@ -307,8 +321,9 @@ fn gen_interval(w: &World, len: u64, width: u64) -> (u64, u64, bool) {
         7 => (0, len, true),
         8 => {
             // inverted
-            let e = w.draw(len.max(1));
-            let s = e + 1 + w.draw(3);
+            // (1 in 3: inverted and beyond the end of the record at once)
+            let e = if w.chance(1, 3) { len + 1 + w.draw(5) } else { w.draw(len.max(1)) };
+            let s = if w.chance(1, 8) { u64::MAX } else { e + 1 + w.draw(3) };
             (s, e, false)
         }
         9 => {
